@@ -57,3 +57,55 @@ package db
 //@ func makeRevocationChangeEntry
 //@   requires logEntry != nil
 //@   ensures[revoked] result.Revoked && result.Seq == seqID && result.ID == logEntry.DocID
+
+// ---- paging of the revocation feed (goroutine body of buildRevokedFeed) ----
+
+// The deferred function of the goroutine (db/changes.go:258-267): recovers a panic (then logs and sends an error
+// entry) and closes the feed channel. TRUSTED: channel operations and logging only, no write to any heap object
+// (recover() is modelled as returning nil by the engine, so the panic branch could not be checked anyway).
+//@ func DatabaseCollectionWithUser.buildRevokedFeed$1$1
+//@   trusted
+
+// GetDocSyncData reads the document's sync metadata from the bucket (storage call: out of reach). TRUSTED frame:
+// the result is a fresh value; no object read by the functions under contract is written.
+//@ func DatabaseCollection.GetDocSyncData
+//@   trusted
+
+// collectionRevisionCache.GetActive forwards to the revision cache (interface RevisionCache: LRU, sharded LRU or
+// bypass), which reads the document from the bucket and may insert / evict cache entries. TRUSTED frame: only
+// revision-cache internals are written -- the fields listed (taken from the verified contract of
+// LRURevisionCache.GetActive, C16) plus the contents of the cache map and of its container/list, which cannot be named
+// by type in a modifies clause and which no contract of C13 reads. The returned revision is named by callres.
+//@ func collectionRevisionCache.GetActive
+//@   trusted
+//@   modifies LRURevisionCache.lruSet, LRURevisionCache.lruLen, LRURevisionCache.cache, revCacheValue.memState, revCacheValue.bodyBytes, revCacheValue.history, revCacheValue.channels, revCacheValue.removed, revCacheValue.attachments, revCacheValue.deleted, revCacheValue.expiry, revCacheValue.revID, revCacheValue.cv, revCacheValue.hlvHistory, revCacheValue.err, revCacheValue.itemBytes
+
+// UserHasDocAccess ("no revocation is sent for a document the user can still see", document level): the answer is
+// true only if the document's active revision could be loaded and the collection's user is authorised for that
+// revision's channels (vocabulary of C02: colAuth = no user, or userAuthAny); conversely an authorised user whose
+// roles load gets true for a revision that is in some channel. A missing document is "no access", not an error.
+//@ func UserHasDocAccess
+//@   requires collection != nil && collection.DatabaseCollection != nil && colUserWF(collection)
+//@   modifies unbox(collection.user, *auth.userImpl).roles, unbox(collection.user, *auth.userImpl).deletedRoles
+//@   ensures[error]           !isNilErr(result1) ==> !result0
+//@   ensures[visible-only-if] result0 ==> isNilErr(callres(GetActive, 1, 1)) && colAuth(collection, callres(GetActive, 1, 0).Channels)
+//@   ensures[visible-if]      isNilErr(callres(GetActive, 1, 1)) && len(callres(GetActive, 1, 0).Channels) != 0 && colRolesLoad(collection) && colAuth(collection, callres(GetActive, 1, 0).Channels) ==> result0 && isNilErr(result1)
+
+// The paging loop ("never silently dropped": every entry of a revoked channel is examined). The goroutine ends in
+// exactly one of these ways:
+//   - the changes context is cancelled (Err() != nil at the top of a page or of an entry, or Done() wins the select);
+//   - an error: GetChanges, wasDocInChannelPriorToRevocation or UserHasDocAccess failed (an error entry is sent);
+//   - the request limit is reached: requestLimit > 0 and the number of revocations sent reached it;
+//   - the page just fetched from the channel is SHORT: fewer entries than the page limit that was asked for.
+// In particular it does not stop because few revocations were SENT from a full page (entries skipped because the
+// document is still visible through another channel, or needs no revocation, do not end the paging).
+// callres(GetChanges, 1, 0) is the page fetched last; paginationOptions.Limit the limit it was fetched with.
+//@ func DatabaseCollectionWithUser.buildRevokedFeed$1
+//@   requires db != nil && db.DatabaseCollection != nil && usrKnownDB(db.user)
+//@   modifies paginationOptions, unbox(db.user, *auth.userImpl).roles, unbox(db.user, *auth.userImpl).deletedRoles
+//@   ensures[stops-only-when] !isNilErr(callres(Err, 1, 0)) || !isNilErr(callres(Err, 2, 0)) || called(DebugfCtx, 5) ||
+//@        !isNilErr(callres(GetChanges, 1, 1)) || !isNilErr(callres(wasDocInChannelPriorToRevocation, 1, 1)) || !isNilErr(callres(UserHasDocAccess, 1, 1)) ||
+//@        (requestLimit > 0 && itemsSent >= requestLimit) ||
+//@        len(callres(GetChanges, 1, 0)) < paginationOptions.Limit
+//@   before[only-if-not-visible] call makeRevocationChangeEntry#1 !callres(UserHasDocAccess, 1, 0) && isNilErr(callres(UserHasDocAccess, 1, 1))
+//@   before[only-if-was-visible] call makeRevocationChangeEntry#1 $1.Sequence <= sinceVal || callres(wasDocInChannelPriorToRevocation, 1, 0)
